@@ -644,6 +644,7 @@ static bool expand_macro(Token **rest, Token *tok) {
   if (m->handler) {
     *rest = m->handler(tok);
     (*rest)->next = tok->next;
+    (*rest)->has_space = tok->has_space;
     return true;
   }
 
